@@ -23,6 +23,14 @@ type countingConn struct {
 	mu     *sync.Mutex
 	counts map[int]int // publish index -> packets
 	last   *time.Time
+	rgate  *gate // back-pressure: reads wait while the gate is shut
+}
+
+func (c *countingConn) Read(b []byte) (int, error) {
+	if c.rgate != nil {
+		c.rgate.wait()
+	}
+	return c.Conn.Read(b)
 }
 
 func (c *countingConn) Write(b []byte) (int, error) {
@@ -62,8 +70,8 @@ func pubIndexOfData(inner []byte) (int, bool) {
 }
 
 type mev struct {
-	kind    string // pub down up
-	a, b, c int    // pub: origin, channel; down/up: u, v, link id
+	kind    string // pub down up burst
+	a, b, c int    // pub: origin, channel; down/up: u, v, link id; burst: origin, channel, id of the link whose far end does not read
 }
 
 func (e mev) term() string {
@@ -72,10 +80,21 @@ func (e mev) term() string {
 		return hx.App("EPub", hx.Nat(e.a), hx.Nat(e.b))
 	case "down":
 		return hx.App("EDown", hx.Nat(e.a), hx.Nat(e.b), hx.Nat(e.c))
+	case "burst":
+		// for the model a burst is a sequence of publishes: the send queues are unbounded FIFOs
+		items := make([]string, burstLen(e.c))
+		for i := range items {
+			items[i] = hx.App("EPub", hx.Nat(e.a), hx.Nat(e.b))
+		}
+		return strings.Join(items, "; ")
 	default:
 		return hx.App("EUp", hx.Nat(e.a), hx.Nat(e.b), hx.Nat(e.c))
 	}
 }
+
+// burstLen is the number of publishes of a burst over link lid: more than the
+// per-peer send queue (32) plus the packet in the blocked write.
+func burstLen(lid int) int { return 36 + lid%8 }
 
 func (e mev) String() string { return fmt.Sprintf("%s(%d,%d,%d)", e.kind, e.a, e.b, e.c) }
 
@@ -198,9 +217,33 @@ func genMesh(c *hx.Ctx) *mesh {
 		m.evs = append(m.evs, mev{"pub", o, rng.Intn(2), 0})
 	}
 	steps := 2 + rng.Intn(4)
+	bursted := false
 	for i := 0; i < steps; i++ {
 		switch x := rng.Intn(10); {
 		case x < 5 || len(up) == 0:
+			if len(up) > 0 && !bursted && rng.Intn(16) == 0 {
+				// back-pressure: the far end of one link stops reading while more messages than its
+				// peer's send queue holds are published, then resumes
+				var cands [][3]int
+				for _, l := range up {
+					cands = append(cands, l)
+				}
+				sort.Slice(cands, func(a, b int) bool { return cands[a][2] < cands[b][2] })
+				l := cands[rng.Intn(len(cands))]
+				o, far := l[0], l[1]
+				if rng.Intn(2) == 0 {
+					o, far = far, o
+				}
+				for ch := 0; ch < 2; ch++ {
+					if m.isSub(far, ch) && !bursted {
+						m.evs = append(m.evs, mev{"burst", o, ch, l[2]})
+						bursted = true
+					}
+				}
+				if bursted {
+					continue
+				}
+			}
 			pub()
 		case x < 8:
 			// take a link down: prefer one of a parallel pair, else any
@@ -247,7 +290,7 @@ func genMesh(c *hx.Ctx) *mesh {
 			pubNear(l)
 		}
 	}
-	if m.evs[len(m.evs)-1].kind != "pub" {
+	if k := m.evs[len(m.evs)-1].kind; k != "pub" && k != "burst" {
 		pub()
 	}
 	m.order = rng.Perm(len(m.links) + len(m.subs))
@@ -313,6 +356,7 @@ func runMesh(m *mesh, keys []keyInfo) {
 	handed := map[[2]int]int{} // (publish, node) -> handler invocations
 	linkCounts := map[[3]int]map[int]int{}
 	conns := map[int][2]net.Conn{}
+	gates := map[[2]int]*gate{} // (reading node, link id)
 	defer func() {
 		for _, c := range conns {
 			_ = c[0].Close()
@@ -337,8 +381,9 @@ func runMesh(m *mesh, keys []keyInfo) {
 			linkCounts[[3]int{u, v, lid}] = map[int]int{}
 			linkCounts[[3]int{v, u, lid}] = map[int]int{}
 		}
-		cu := &countingConn{Conn: a, mu: &mu, counts: linkCounts[[3]int{u, v, lid}], last: &lastEvent}
-		cv := &countingConn{Conn: b, mu: &mu, counts: linkCounts[[3]int{v, u, lid}], last: &lastEvent}
+		gates[[2]int{u, lid}], gates[[2]int{v, lid}] = newGate(), newGate()
+		cu := &countingConn{Conn: a, mu: &mu, counts: linkCounts[[3]int{u, v, lid}], last: &lastEvent, rgate: gates[[2]int{u, lid}]}
+		cv := &countingConn{Conn: b, mu: &mu, counts: linkCounts[[3]int{v, u, lid}], last: &lastEvent, rgate: gates[[2]int{v, lid}]}
 		mu.Unlock()
 		up[lid] = l
 		nodes[u].AddPeerStream(pubsub.PeerLinkTuple{PeerID: keys[v].id, LinkID: uint64(lid)}, true, &fakeMS{conn: cu, pid: keys[v].id})
@@ -477,6 +522,63 @@ func runMesh(m *mesh, keys []keyInfo) {
 				m.problem = "subscriptions were not announced over a new link within 8s"
 				return
 			}
+		case "burst":
+			origin, ch, lid := ev.a, ev.b, ev.c
+			l := up[lid]
+			far := l[0]
+			if far == origin {
+				far = l[1]
+			}
+			k := burstLen(lid)
+			first := len(m.pubs)
+			cur := upList()
+			for j := 0; j < k; j++ {
+				m.pubs = append(m.pubs, [2]int{origin, ch})
+				m.upAt = append(m.upAt, cur)
+			}
+			g := gates[[2]int{far, lid}]
+			g.shut()
+			pubDone := make(chan error, 1)
+			go func() {
+				for j := 0; j < k; j++ {
+					if err := nodes[origin].Publish(ctx, "ch"+strconv.Itoa(ch), keys[origin].priv, []byte(fmt.Sprintf("pub%d.", first+j))); err != nil {
+						pubDone <- err
+						return
+					}
+				}
+				pubDone <- nil
+			}()
+			time.Sleep(250 * time.Millisecond)
+			g.open()
+			select {
+			case err := <-pubDone:
+				if err != nil {
+					m.problem = "publish failed: " + err.Error()
+					return
+				}
+			case <-time.After(10 * time.Second):
+				if !dead() {
+					m.problem = "burst of publishes blocked for 10s after the reader resumed"
+					return
+				}
+			}
+			reach := m.reachable(cur, origin, ch)
+			waitFor(6*time.Second, time.Millisecond, func() bool {
+				if dead() {
+					return true
+				}
+				mu.Lock()
+				defer mu.Unlock()
+				for j := first; j < first+k; j++ {
+					for v := 0; v < n; v++ {
+						if reach[v] && m.isSub(v, ch) && handed[[2]int{j, v}] == 0 {
+							return false
+						}
+					}
+				}
+				return true
+			})
+			quiet()
 		case "pub":
 			i := len(m.pubs)
 			origin, ch := ev.a, ev.b
@@ -584,6 +686,9 @@ func c28(c *hx.Ctx) {
 			evT = append(evT, e.term())
 			if e.kind == "down" {
 				downs++
+			}
+			if e.kind == "burst" {
+				c.Class("with-backpressure-burst")
 			}
 		}
 		desc := map[string]any{"kind": m.kind, "n": m.n, "links(u,v,id)": m.links, "subs(node,ch)": m.subs, "events": evS,
